@@ -50,7 +50,7 @@ Base  == IntC \cup FltC
 ExtC  == {"b", "h"} \cup Base
 Pow2  == {1, 2, 4, 8, 16, 32, 64, 128, 256, 512, 1024, 2048, 4096, 8192, 16384, 32768, 65536}
 
-SeqSet(s) == {s[i] : i \in DOMAIN s}
+(* (sequences of instruction records are always walked by index: a set of records would have to be sorted) *)
 
 (* ------------------------------------------------------------------------ *)
 (* Instruction signatures (QBE IL reference, "Instructions index").          *)
@@ -211,9 +211,10 @@ Bad_TypesDefinedBeforeUse_F(M, F) ==
   LET mentions ==
         (IF F.rcls = "agg" THEN {F.rty} ELSE {})
         \cup {F.params[i].ty : i \in {j \in DOMAIN F.params : F.params[j].cls = "agg"}}
-        \cup UNION {UNION {(IF ins.cls = "agg" THEN {ins.ty} ELSE {})
-                           \cup {ins.cargs[i].ty : i \in {j \in DOMAIN ins.cargs : ins.cargs[j].cls = "agg"}}
-                           : ins \in SeqSet(F.blocks[b].insts)} : b \in 1..NB(F)}
+        \cup UNION {UNION {LET ins == F.blocks[b].insts[n]
+                           IN (IF ins.cls = "agg" THEN {ins.ty} ELSE {})
+                              \cup {ins.cargs[i].ty : i \in {j \in DOMAIN ins.cargs : ins.cargs[j].cls = "agg"}}
+                           : n \in DOMAIN F.blocks[b].insts} : b \in 1..NB(F)}
   IN {ty \in mentions : ~TypeDefinedBefore(M, ty, F.pos)}
 TypesDefinedBeforeUse_F(M, F) == Bad_TypesDefinedBeforeUse_F(M, F) = {}
 
@@ -235,7 +236,7 @@ TempsDefinedOnce(F) == NDefSites(F) = Cardinality({p[1] : p \in DefPairs(F)})
 Bad_TempsDefinedOnce(F) == IF TempsDefinedOnce(F) THEN {} ELSE {"multiple-definition"}
 
 AllUses(F) ==
-  UNION {UNION {InstUses(ins) : ins \in SeqSet(F.blocks[b].insts)}
+  UNION {UNION {InstUses(F.blocks[b].insts[n]) : n \in DOMAIN F.blocks[b].insts}
          \cup ValTmp(F.blocks[b].jump.arg)
          \cup UNION {UNION {ValTmp(F.blocks[b].phi[i].srcs[k].v) : k \in DOMAIN F.blocks[b].phi[i].srcs}
                      : i \in DOMAIN F.blocks[b].phi}
@@ -245,7 +246,7 @@ UsesHaveDefs(F, tc) == Bad_UsesHaveDefs(F, tc) = {}
 
 (* instructions and the operand of jnz *)
 Bad_InstrClassOK(F, tc) ==
-  UNION {{ins.op : ins \in {x \in SeqSet(F.blocks[b].insts) : ~InstOK(tc, x)}}
+  UNION {{F.blocks[b].insts[n].op : n \in {k \in DOMAIN F.blocks[b].insts : ~InstOK(tc, F.blocks[b].insts[k])}}
          \cup (IF F.blocks[b].jump.k = "jnz" /\ ~ValOK(tc, F.blocks[b].jump.arg, "w") THEN {"jnz"} ELSE {})
          : b \in 1..NB(F)}
 InstrClassOK(F, tc) == Bad_InstrClassOK(F, tc) = {}
@@ -262,10 +263,11 @@ CallMatches(ins, g) ==
         ELSE vapos = 0 /\ Len(fixed) = np
      /\ \A i \in 1..np : i <= Len(fixed) => fixed[i].cls = g.params[i].cls /\ fixed[i].ty = g.params[i].ty
 Bad_CallArgsMatchCallee(M, F) ==
-  UNION {{ins.callee.s : ins \in {x \in SeqSet(F.blocks[b].insts) :
-            /\ x.op = "call" /\ x.callee.t = "glob" /\ x.callee.n = 0
-            /\ LET gi == SelectInSeq(M.funcs, LAMBDA g : g.name = x.callee.s)
-               IN gi # 0 /\ ~CallMatches(x, M.funcs[gi])}}
+  UNION {{F.blocks[b].insts[n].callee.s : n \in {k \in DOMAIN F.blocks[b].insts :
+            LET x == F.blocks[b].insts[k]
+            IN /\ x.op = "call" /\ x.callee.t = "glob" /\ x.callee.n = 0
+               /\ LET gi == SelectInSeq(M.funcs, LAMBDA g : g.name = x.callee.s)
+                  IN gi # 0 /\ ~CallMatches(x, M.funcs[gi])}}
          : b \in 1..NB(F)}
 CallArgsMatchCallee(M, F) == Bad_CallArgsMatchCallee(M, F) = {}
 
